@@ -5,6 +5,7 @@ import (
 	"go/types"
 	"os"
 	"path/filepath"
+	"regexp"
 	"sort"
 	"strings"
 
@@ -411,6 +412,8 @@ func (g *SpecGen) sizeTerm(t *Type, c []string) string {
 
 func isByteT(t *Type) bool { return t.Kind == Prim && (t.Name == "byte" || t.Name == "uint8") }
 
+var reHName = regexp.MustCompile(`\bh[0-9]+\b`)
+
 // axiom renders (assert (forall (decls) (! body :pattern (pat)))) and degrades gracefully without variables.
 func axiom(decls []string, body, pat string) string {
 	var ds []string
@@ -448,7 +451,7 @@ func (g *SpecGen) emitSMT() {
 			s := c[0]
 			if isByteT(t.Elem) {
 				w.WriteString(axiom([]string{HP, "(t Tr)", decl}, fmt.Sprintf("(= %s (tr.raw (Ew4 t (u32w (s-len %s))) %s (s-loc %s) (s-len %s)))", encApp, s, g.h("E$uint8"), s, s), encApp))
-				w.WriteString(axiom([]string{HP, decl}, fmt.Sprintf("(= %s (+ 4 (s-len %s)))", sizeApp, s), sizeApp))
+				w.WriteString(axiom([]string{HP, decl}, fmt.Sprintf("(= %s (+ 4 (ite (<= (s-len %s) 0) 0 (s-len %s))))", sizeApp, s, s), sizeApp))
 				continue
 			}
 			encel, sizeel := g.fn("encel", id), g.fn("sizeel", id)
@@ -457,20 +460,58 @@ func (g *SpecGen) emitSMT() {
 			encelAt := func(tr, i string) string { return app(encel, HA, tr, s, i) }
 			sizeelAt := func(i string) string { return app(sizeel, HA, s, i) }
 			// base and (marker-triggered) unfolding
-			w.WriteString(axiom([]string{HP, "(t Tr)", decl}, fmt.Sprintf("(= %s t)", encelAt("t", "0")), encelAt("t", "0")))
+			w.WriteString(axiom([]string{HP, "(t Tr)", decl, "(i Int)"}, fmt.Sprintf("(=> (<= i 0) (= %s t))", encelAt("t", "i")), encelAt("t", "i")))
 			w.WriteString(axiom([]string{HP, "(t Tr)", decl, "(i Int)"},
 				fmt.Sprintf("(=> (> i 0) (= %s %s))", encelAt("t", "i"), g.encTerm(t.Elem, encelAt("t", "(- i 1)"), el)), "(UnfT "+encelAt("t", "i")+")"))
 			if fixed > 0 {
-				w.WriteString(axiom([]string{HP, decl, "(i Int)"}, fmt.Sprintf("(= %s (* i %d))", sizeelAt("i"), fixed), sizeelAt("i")))
+				w.WriteString(axiom([]string{HP, decl, "(i Int)"}, fmt.Sprintf("(= %s (ite (<= i 0) 0 (* i %d)))", sizeelAt("i"), fixed), sizeelAt("i")))
 			} else {
-				w.WriteString(axiom([]string{HP, decl}, fmt.Sprintf("(= %s 0)", sizeelAt("0")), sizeelAt("0")))
+				w.WriteString(axiom([]string{HP, decl, "(i Int)"}, fmt.Sprintf("(=> (<= i 0) (= %s 0))", sizeelAt("i")), sizeelAt("i")))
 				w.WriteString(axiom([]string{HP, decl, "(i Int)"},
 					fmt.Sprintf("(=> (> i 0) (= %s (+ %s %s)))", sizeelAt("i"), sizeelAt("(- i 1)"), g.sizeTerm(t.Elem, el)), "(UnfI "+sizeelAt("i")+")"))
-				// spec-level lemmas about the reference on well-formed heaps (by induction on i; see DESIGN section 8)
+				// spec-level lemmas about the reference (by induction on i, every element size being >= 0; see DESIGN section 8)
 				w.WriteString(axiom([]string{HP, decl, "(i Int)", "(j Int)"},
-					fmt.Sprintf("(=> (and %s (<= 0 i) (<= i j)) (<= %s %s))", g.wfHs(id), sizeelAt("i"), sizeelAt("j")), sizeelAt("i")+" "+sizeelAt("j")))
+					fmt.Sprintf("(=> (<= i j) (<= %s %s))", sizeelAt("i"), sizeelAt("j")), sizeelAt("i")+" "+sizeelAt("j")))
 				w.WriteString(axiom([]string{HP, decl, "(i Int)"},
-					fmt.Sprintf("(=> (and %s (<= 0 i)) (>= %s 0))", g.wfHs(id), sizeelAt("i")), sizeelAt("i")))
+					fmt.Sprintf("(>= %s 0)", sizeelAt("i")), sizeelAt("i")))
+			}
+			if fixed == 0 && len(g.rs[id]) > 0 {
+				// extensional frame lemma (by induction on i): the prefix sum depends only on the elements
+				// below i — their stored components and, for elements that read the heap themselves, their own size
+				var hp2, ha2, sorts []string
+				ren := map[string]string{}
+				for _, k := range g.rs[id] {
+					hp2 = append(hp2, fmt.Sprintf("(g%d %s)", g.kidx[k], g.ksort[k]))
+					ha2 = append(ha2, fmt.Sprintf("g%d", g.kidx[k]))
+					sorts = append(sorts, g.ksort[k])
+					ren[fmt.Sprintf("h%d", g.kidx[k])] = fmt.Sprintf("g%d", g.kidx[k])
+				}
+				toG := func(term string) string {
+					return reHName.ReplaceAllStringFunc(term, func(m string) string {
+						if r, ok := ren[m]; ok {
+							return r
+						}
+						return m
+					})
+				}
+				elD := g.loadAt(t.Elem, fmt.Sprintf("(loc+ (s-loc %s) d)", s))
+				var diffs []string
+				for _, c1 := range elD {
+					diffs = append(diffs, fmt.Sprintf("(not (= %s %s))", c1, toG(c1)))
+				}
+				if !g.flat0(t.Elem) {
+					st := g.sizeTerm(t.Elem, elD)
+					diffs = append(diffs, fmt.Sprintf("(not (= %s %s))", st, toG(st)))
+				}
+				dfn := g.fn("sizeeldiff", id)
+				fmt.Fprintf(w, "(declare-fun %s (%s %s Slice Int) Int)\n", dfn, strings.Join(sorts, " "), strings.Join(sorts, " "))
+				a1 := sizeelAt("i")
+				a2 := app(sizeel, strings.Join(ha2, " "), s, "j")
+				// the two index terms are matched separately and compared arithmetically (E-matching alone
+				// does not identify i+1-1 with i)
+				w.WriteString(axiom([]string{HP, strings.Join(hp2, " "), decl, "(i Int)", "(j Int)"},
+					fmt.Sprintf("(=> (= i j) (or (= %s %s) (let ((d (%s %s %s %s i))) (and (<= 0 d) (< d i) (or %s false)))))", a1, a2, dfn, HA, strings.Join(ha2, " "), s, strings.Join(diffs, " ")),
+					a1+" "+a2))
 			}
 			// whole array
 			w.WriteString(axiom([]string{HP, "(t Tr)", decl}, fmt.Sprintf("(= %s %s)", encApp, encelAt(fmt.Sprintf("(Ew4 t (u32w (s-len %s)))", s), fmt.Sprintf("(s-len %s)", s))), encApp))
@@ -480,13 +521,7 @@ func (g *SpecGen) emitSMT() {
 			encBody, sizeBody := g.recBodies(r, c)
 			w.WriteString(axiom([]string{HP, "(t Tr)", decl}, fmt.Sprintf("(= %s %s)", encApp, encBody), encApp))
 			w.WriteString(axiom([]string{HP, decl}, fmt.Sprintf("(= %s %s)", sizeApp, sizeBody), sizeApp))
-			wfs := []string{g.wfHs(id)}
-			for i, srt := range g.flat(t) {
-				if srt == "Slice" {
-					wfs = append(wfs, fmt.Sprintf("(wf-slice %s)", c[i]))
-				}
-			}
-			w.WriteString(axiom([]string{HP, decl}, fmt.Sprintf("(=> (and %s) (>= %s 0))", strings.Join(wfs, " "), sizeApp), sizeApp))
+			w.WriteString(axiom([]string{HP, decl}, fmt.Sprintf("(>= %s 0)", sizeApp), sizeApp))
 		}
 	}
 }
@@ -631,20 +666,6 @@ func (g *SpecGen) Generate() error {
 			g.line("pure func %s(h heap:%s, t Tr, s %s, i int) Tr", g.fn("encel", id), bundle, gt)
 			g.line("pure func %s(h heap:%s, s %s, i int) int", g.fn("sizeel", id), bundle, gt)
 		}
-		if t.Kind == Rec {
-			// wfH_<R>(): every slice stored in a cell the reference functions of R read is well formed
-			var wfm []string
-			for _, k := range g.rs[id] {
-				if g.ksort[k] == "(Array Loc Slice)" {
-					wfm = append(wfm, fmt.Sprintf("wfslice(memkey(%q, %q)[k])", k, g.ksort[k]))
-				}
-			}
-			if len(wfm) == 0 {
-				g.line("define %s() bool = true", g.fn("wfH", id))
-			} else {
-				g.line("define %s() bool = forall k Loc :: %s", g.fn("wfH", id), strings.Join(wfm, " && "))
-			}
-		}
 	}
 	for _, r := range g.s.AllRecords() {
 		g.recordContracts(r)
@@ -666,6 +687,8 @@ func (g *SpecGen) Generate() error {
 
 // walker state for loops
 type walk struct {
+	sep    []string // separation facts: other fields of the message do not point into the array being filled
+	zero   string   // "the receiver was the zero value at entry" (message/union decoders)
 	frames []string // universal frame invariants for heap cells that per-iteration copies may extend
 	marks  []string // unfolding markers of enclosing loops (needed to bound partial sums)
 	ord    int
@@ -742,6 +765,237 @@ func (g *SpecGen) recordContracts(r *Record) {
 	g.marshalToContract(r)
 	g.marshalContract(r)
 	g.encodeContract(r)
+	g.unmarshalContract(r)
+	g.makeContracts(r)
+}
+
+// flat: the size/enc functions of values of type t read no heap (the value is its own footprint).
+func (g *SpecGen) flat0(t *Type) bool { return len(g.rs[t.ID()]) == 0 }
+
+// boundOK: the decoder of a value of type t can be shown to consume at least Size() bytes
+// (arrays must have flat elements: the prefix-sum function then has an extensional frame lemma).
+func (g *SpecGen) boundOK(t *Type, seen map[string]bool) bool {
+	switch t.Kind {
+	case Prim, EnumK:
+		return true
+	case Arr:
+		return g.boundOK(t.Elem, seen)
+	case MapK:
+		return false
+	case Rec:
+		if seen[t.Name] {
+			return false // recursive types: not attempted
+		}
+		seen[t.Name] = true
+		defer delete(seen, t.Name)
+		r := g.s.record(t.Name)
+		for _, f := range r.Fields {
+			if !g.boundOK(f.Type, seen) {
+				return false
+			}
+		}
+		for _, b := range r.Branches {
+			if !g.boundOK(R(b.Name), seen) {
+				return false
+			}
+		}
+		return true
+	}
+	return false
+}
+
+// freshAll lists fresh(T) for every type of the package (what a decoder may allocate).
+func (g *SpecGen) freshAll() string {
+	var items []string
+	seen := map[string]bool{}
+	for _, id := range g.order {
+		t := g.used[id]
+		if t.Kind == MapK {
+			continue
+		}
+		te := t.GoType(g.o)
+		if !seen[te] {
+			seen[te] = true
+			items = append(items, "fresh("+te+")")
+		}
+	}
+	return strings.Join(items, ", ")
+}
+
+// unmarshalContract: UnmarshalBebop on arbitrary bytes does not panic; when it succeeds the
+// decoded value's Size() does not exceed the buffer (what parents rely on to advance).
+func (g *SpecGen) unmarshalContract(r *Record) {
+	n := GoTypeName(r.Name, g.o)
+	self := R(r.Name)
+	bound := g.boundOK(self, map[string]bool{})
+	g.line("func (*%s).UnmarshalBebop", n)
+	// the bound is stated for a zero-valued receiver (what the Make* wrappers and nested decoders pass)
+	zero := "true"
+	if r.Kind == Message {
+		var zs []string
+		for _, f := range r.Fields {
+			zs = append(zs, g.fieldExpr(r, f)+" == nil")
+		}
+		if len(zs) > 0 {
+			zero = strings.Join(zs, " && ")
+		}
+	} else if r.Kind == Union {
+		var zs []string
+		for _, b := range r.Branches {
+			zs = append(zs, "bbp."+GoFieldName(r, b.Name, g.o)+" == nil")
+		}
+		if len(zs) > 0 {
+			zero = strings.Join(zs, " && ")
+		}
+	}
+	if bound {
+		g.line("  ensures [BOUND] (old(%s) && err == nil) ==> %s <= len(buf)", zero, g.sizeX(self, "*bbp"))
+	}
+	g.line("  modifies *bbp, %s, tr(), hw(), alloc()", g.freshAll())
+	w := &walk{ord: 1}
+	switch r.Kind {
+	case Struct:
+		pre := "0"
+		for _, f := range r.Fields {
+			v := g.fieldExpr(r, f)
+			g.walkDec(f.Type, v, pre, bound, w)
+			pre = pre + " + " + g.sizeX(f.Type, v)
+		}
+	case Message, Union:
+		// loop 1 is the dispatch loop over field indices / the discriminator
+		k := w.ord
+		w.ord++
+		w.zero = zero
+		g.line("  invariant loop %d: 0 <= at && at <= len(buf) && len(buf) + 4 <= len(old(buf))", k)
+		var sum []string
+		if r.Kind == Message {
+			for _, f := range msgFields(r, true) {
+				p := g.fieldExpr(r, f)
+				sum = append(sum, fmt.Sprintf("ite(%s != nil, 1 + %s, 0)", p, g.sizeX(f.Type, "*"+p)))
+			}
+		}
+		if bound && r.Kind == Message {
+			total := "0"
+			if len(sum) > 0 {
+				total = strings.Join(sum, " + ")
+			}
+			g.line("  invariant loop %d: old(%s) ==> %s <= at", k, zero, total)
+		}
+		if r.Kind == Message {
+			for i, f := range msgFields(r, false) {
+				p := g.fieldExpr(r, f)
+				others := "0"
+				var os []string
+				for j, x := range msgFields(r, true) {
+					_ = j
+					if x.Name != f.Name {
+						os = append(os, sum[indexOfField(msgFields(r, true), x.Name)])
+					}
+				}
+				if len(os) > 0 {
+					others = strings.Join(os, " + ")
+				}
+				_ = i
+				w.sep = nil
+				for _, x := range r.Fields {
+					if x.Name == f.Name {
+						continue
+					}
+					xp := g.fieldExpr(r, x)
+					w.sep = append(w.sep, fmt.Sprintf("ref(%s) != ref(ranged(%%d))", xp))
+					if x.Type.Kind == Arr {
+						w.sep = append(w.sep, fmt.Sprintf("ref(*%s) != ref(ranged(%%d))", xp))
+					}
+				}
+				g.walkDecMsg(f.Type, "*"+p, others, bound && !f.Deprecated, w)
+			}
+		}
+	}
+}
+
+func indexOfField(fs []Field, name string) int {
+	for i, f := range fs {
+		if f.Name == name {
+			return i
+		}
+	}
+	return -1
+}
+
+// walkDec emits the loop invariants of a struct's UnmarshalBebop for one field value.
+func (g *SpecGen) walkDec(t *Type, v, pre string, bound bool, w *walk) {
+	if t.Kind != Arr || isByteT(t.Elem) {
+		return
+	}
+	k := w.ord
+	w.ord++
+	g.line("  invariant loop %d: 0 <= at && at <= len(buf) && ranged(%d) == %s", k, k, v)
+	if fs := g.s.FixedSize(t.Elem); fs > 0 {
+		g.line("  invariant loop %d: at + (len(ranged(%d)) - it(%d)) * %d <= len(buf)", k, k, k, fs)
+	}
+	sz := fmt.Sprintf("%s(ranged(%d), it(%d))", g.fn("sizeel", t.ID()), k, k)
+	szNext := fmt.Sprintf("%s(ranged(%d), it(%d) + 1)", g.fn("sizeel", t.ID()), k, k)
+	if bound {
+		g.line("  invariant loop %d: at == %s + 4 + %s && UnfI(%s)", k, pre, sz, sz)
+	}
+	for _, m := range w.marks {
+		g.line("  invariant loop %d: %s", k, m)
+	}
+	saved := w.marks
+	if bound {
+		w.marks = append(append([]string(nil), w.marks...), fmt.Sprintf("UnfI(%s)", szNext))
+	}
+	g.walkDec(t.Elem, fmt.Sprintf("ranged(%d)[it(%d)]", k, k), fmt.Sprintf("%s + 4 + %s", pre, sz), bound, w)
+	w.marks = saved
+}
+
+// walkDecMsg emits the invariants of loops nested in a message's dispatch loop.
+func (g *SpecGen) walkDecMsg(t *Type, v, others string, bound bool, w *walk) {
+	if t.Kind != Arr || isByteT(t.Elem) {
+		return
+	}
+	k := w.ord
+	w.ord++
+	nn := "true"
+	if strings.HasPrefix(v, "*") {
+		nn = strings.TrimPrefix(v, "*") + " != nil"
+	}
+	g.line("  invariant loop %d: 0 <= at && at <= len(buf) && len(buf) + 4 <= len(old(buf)) && %s && ranged(%d) == %s", k, nn, k, v)
+	for _, sp := range w.sep {
+		g.line("  invariant loop %d: "+sp, k, k)
+	}
+	if fs := g.s.FixedSize(t.Elem); fs > 0 {
+		g.line("  invariant loop %d: at + (len(ranged(%d)) - it(%d)) * %d <= len(buf)", k, k, k, fs)
+	}
+	sz := fmt.Sprintf("%s(ranged(%d), it(%d))", g.fn("sizeel", t.ID()), k, k)
+	szNext := fmt.Sprintf("%s(ranged(%d), it(%d) + 1)", g.fn("sizeel", t.ID()), k, k)
+	if bound {
+		g.line("  invariant loop %d: (old(%s) ==> %s + 1 + 4 + %s <= at) && UnfI(%s)", k, w.zero, others, sz, sz)
+	}
+	for _, m := range w.marks {
+		g.line("  invariant loop %d: %s", k, m)
+	}
+	saved := w.marks
+	if bound {
+		w.marks = append(append([]string(nil), w.marks...), fmt.Sprintf("UnfI(%s)", szNext))
+	}
+	g.walkDecMsg(t.Elem, fmt.Sprintf("ranged(%d)[it(%d)]", k, k), fmt.Sprintf("%s + 1 + 4 + %s - 1", others, sz), bound, w)
+	w.marks = saved
+}
+
+// makeContracts: the Make* wrappers return a fresh value; FromBytes inherits the bound.
+func (g *SpecGen) makeContracts(r *Record) {
+	n := GoTypeName(r.Name, g.o)
+	self := R(r.Name)
+	mk := "Make"
+	if g.o.Private {
+		mk = "make"
+	}
+	g.line("func %s%sFromBytes", mk, n)
+	if g.boundOK(self, map[string]bool{}) {
+		g.line("  ensures [BOUND] result1 == nil ==> %s <= len(buf)", g.sizeX(self, "result0"))
+	}
+	g.line("  modifies %s, tr(), hw(), alloc()", g.freshAll())
 }
 
 const ewT = "*iohelp.ErrorWriter"
@@ -753,7 +1007,7 @@ func (g *SpecGen) encodeContract(r *Record) {
 	self := R(r.Name)
 	g.line("func %s.EncodeBebop", g.recvSwitch(r))
 	g.line("  requires okWI(iow)")
-	g.line("  requires %s() && %s <= 4611686018427387904", g.fn("wfH", r.Name), g.sizeX(self, V))
+	g.line("  requires %s <= 4611686018427387904", g.sizeX(self, V))
 	if g.hasByteArr(self, map[string]bool{}) {
 		g.line("  requires istype(iow, %s) ==> (forall k Loc :: ref(mem([]byte)[k]) != ref(asptr(iow, %s).buffer))", ewT, ewT)
 		if r.Kind == Struct {
@@ -828,6 +1082,14 @@ func (g *SpecGen) walkStream(t *Type, v, tr string, w *walk) {
 	g.line("  invariant loop %d: w != nil && (istype(iow, %s) ==> w == asptr(iow, %s)) && (!istype(iow, %s) ==> isfresh(w) && isfresh(w.buffer))", k, ewT, ewT, ewT)
 	g.line("  invariant loop %d: (old(asptr(iow, %s).Err) != nil && istype(iow, %s)) ==> w.Err != nil", k, ewT, ewT)
 	g.line("  invariant loop %d: (w.Err == nil ==> written(w.Writer) == %s) && UnfT(%s)", k, en, en)
+	if !isByteT(t.Elem) && g.s.FixedSize(t.Elem) == 0 {
+		// nested encoders need the element's size bound: element sizes are below the (bounded) total
+		g.line("  invariant loop %d: UnfI(oh(%s(ranged(%d), it(%d) + 1)))", k, g.fn("sizeel", t.ID()), k, k)
+		for _, m := range w.marks {
+			g.line("  invariant loop %d: %s", k, m)
+		}
+		w.marks = append(append([]string(nil), w.marks...), fmt.Sprintf("UnfI(oh(%s(ranged(%d), it(%d) + 1)))", g.fn("sizeel", t.ID()), k, k))
+	}
 	for _, fr := range append(append([]string(nil), w.frames...), g.copyFrames(t.Elem)...) {
 		g.line("  invariant loop %d: %s", k, fr)
 	}
@@ -855,7 +1117,6 @@ func (g *SpecGen) sizeContract(r *Record) {
 	n := GoTypeName(r.Name, g.o)
 	V := g.V(g.o.Ptr)
 	g.line("func %s.Size", g.recvSwitch(r))
-	g.line("  requires %s()", g.fn("wfH", r.Name))
 	g.line("  requires %s <= 4611686018427387904", g.sizeX(R(r.Name), V))
 	g.line("  ensures result == old(%s)", g.sizeX(R(r.Name), V))
 	w := &walk{ord: 1}
@@ -914,7 +1175,6 @@ func (g *SpecGen) marshalToContract(r *Record) {
 	V := g.V(g.o.Ptr)
 	self := R(r.Name)
 	g.line("func %s.MarshalBebopTo", g.recvSwitch(r))
-	g.line("  requires %s()", g.fn("wfH", r.Name))
 	g.line("  requires len(buf) >= %s && hw(buf) == off(buf)", g.sizeX(self, V))
 	hasB := g.hasByteArr(self, map[string]bool{})
 	if r.Kind == Message {
@@ -1000,7 +1260,6 @@ func (g *SpecGen) marshalContract(r *Record) {
 	V := g.V(g.o.Ptr)
 	self := R(r.Name)
 	g.line("func %s.MarshalBebop", g.recvSwitch(r))
-	g.line("  requires %s()", g.fn("wfH", r.Name))
 	g.line("  requires %s <= 140737488355328", g.sizeX(self, V))
 	g.line("  ensures [SIZE] len(result) == old(%s)", g.sizeX(self, V))
 	g.line("  ensures [ENC] tr(result) == old(%s) && hw(result) == off(result) + len(result)", g.encX(self, "tr.empty", V))
